@@ -757,7 +757,7 @@ class Interp:
         loop-local rebinding)?"""
         loop = getattr(frame, 'loop_ast', None)
         if loop is None or not self.fn_stack:
-            return True
+            return False        # loop statement unknown (iteration helper): assigned-first means loop-local
         end = getattr(loop, 'end_lineno', None)
         fnode = self.fn_stack[-1].node
         if end is None:
@@ -1492,11 +1492,14 @@ class Interp:
             finally:
                 self.ctx.preds.pop()
         else:
+            # the short-circuit condition holds while the rest is evaluated; decisions taken meanwhile stay in the pc
+            at = len(self.ctx.pc)
             self.ctx.pc.append(cond)
             try:
                 rest = self._boolop(is_and, vals, i + 1, env)
             finally:
-                self.ctx.pc.pop()
+                if at < len(self.ctx.pc) and self.ctx.pc[at] is cond:
+                    del self.ctx.pc[at]
         # `metadata or {}`: the stored dict, or the empty dict
         if not is_and and isinstance(v, SV) and v.kind == 'meta' and isinstance(rest, MDict) \
                 and not rest.d and not rest.nodes:
